@@ -85,6 +85,38 @@ func drawInput(s *core.Shard, j int, corpus []*ld.Case) *input {
 		in.c = c
 		return in
 	}
+	if j%12 == 4 {
+		// hand-shaped: one integer-typed attribute supplied through a variable whose text has more
+		// than one plausible reading (leading zero, base prefix, sign, exponent, blanks). Whatever
+		// the loader makes of it - a value or an error - every load must make the same of it.
+		paths := []struct{ name, body string }{
+			{"service-secret-mode", "    secrets:\n      - source: sec\n        target: /t\n        mode: ${M}\n"},
+			{"service-config-mode", "    configs:\n      - source: cfg\n        target: /t\n        mode: ${M}\n"},
+			{"tmpfs-mode", "    volumes:\n      - type: tmpfs\n        target: /t\n        tmpfs: {mode: ${M}}\n"},
+			{"port-target", "    ports:\n      - target: ${M}\n        published: \"8080\"\n"},
+			{"healthcheck-retries", "    healthcheck: {test: [CMD, \"true\"], retries: ${M}}\n"},
+			{"ulimit-single", "    ulimits: {nofile: ${M}}\n"},
+			{"ulimit-soft", "    ulimits: {nofile: {soft: ${M}, hard: 70000}}\n"},
+			{"build-ulimit-single", "    build: {context: ., ulimits: {nofile: ${M}}}\n"},
+			{"deploy-replicas", "    deploy: {replicas: ${M}}\n"},
+			{"oom-score-adj", "    oom_score_adj: ${M}\n"},
+			{"pids-limit", "    pids_limit: ${M}\n"},
+			{"mem-swappiness", "    mem_swappiness: ${M}\n"},
+			{"blkio-weight", "    blkio_config: {weight: ${M}}\n"},
+			{"stop-grace-period", "    stop_grace_period: ${M}\n"},
+			{"mem-limit", "    mem_limit: ${M}\n"},
+			{"cpus", "    cpus: ${M}\n"},
+		}
+		texts := []string{"0440", "0644", "010", "0x1F", "0o17", "0b11", "1_000", "+5", "-0", "1e2", "07", "00", "440 ", "0440k", "08"}
+		k := j / 12
+		pa, tx := paths[k%len(paths)], texts[(k/len(paths))%len(texts)]
+		c := &ld.Case{Files: map[string]string{}, ComposeFiles: []string{"compose.yaml"}, Env: map[string]string{"M": tx}}
+		c.Files["compose.yaml"] = "services:\n  app:\n    image: img\n" + pa.body + "secrets:\n  sec: {environment: SRC}\nconfigs:\n  cfg: {content: x}\n"
+		in.origin = "hand-shaped/ambiguous-number-through-variable"
+		s.Cover("ambiguous-number-path", pa.name)
+		in.c = c
+		return in
+	}
 	cfg := gen.Config{
 		Density:     []float64{0.15, 0.3, 0.5}[r.Intn(3)],
 		Profiles:    r.Intn(3) == 0,
